@@ -12,6 +12,8 @@ non-blank characters are `//@`):
       //@inv REGEX      <invariant/decreases lines inserted between the head of the loop whose head line
                          matches REGEX and its `{`>    ... //@endinv
       //@at REGEX       <lines inserted before the first body line matching REGEX>  ... //@endat
+      //@afteropen REGEX <lines inserted after the first line-ending `{` at or below the first body line matching
+                         REGEX: the start of the block that the matched statement opens>  ... //@endafteropen
       //@blockend REGEX <lines inserted before the `}` closing the block that the first body line matching
                          REGEX opens (that line ends with `{`): end of a loop body>  ... //@endblockend
   //@endfn
@@ -588,11 +590,21 @@ class Unit:
                 b = b.replace(a, c)
                 self.rw.hit('Wsub')
         # --- contract block: split into clauses / inv / at ---
-        clauses, invs, ats, afters, blockends = [], [], [], [], []
+        clauses, invs, ats, afters, blockends, afteropens = [], [], [], [], [], []
         k = 0
         while k < len(block):
             lno, ln = block[k]
             st = ln.strip()
+            if st.startswith('//@afteropen '):
+                rx = st.split(' ', 1)[1].strip()
+                payload = []
+                k += 1
+                while k < len(block) and block[k][1].strip() != '//@endafteropen':
+                    payload.append(block[k])
+                    k += 1
+                afteropens.append((rx, payload))
+                k += 1
+                continue
             if st.startswith('//@inv ') or st.startswith('//@at ') or st.startswith('//@after ') or st.startswith('//@blockend '):
                 is_inv = st.startswith('//@inv ')
                 is_after = st.startswith('//@after ')
@@ -649,6 +661,23 @@ class Unit:
                 if bl[close_line].strip() != '}':
                     raise Unsupported('//@blockend: closing brace of the block is not on a line of its own: ' + bl[close_line])
                 pending_end.setdefault(close_line, []).extend(payload)
+        pending_open = {}
+        for rx, payload in afteropens:
+            hit = None
+            for j, ln in enumerate(bl):
+                if re.search(rx, ln):
+                    hit = j
+                    break
+            if hit is None:
+                raise AnchorLost('%s::%s: proof-hint anchor(s) not found: %s' % (rel, name, [rx]))
+            j = hit
+            while j < len(bl) and not bl[j].rstrip().endswith('{'):
+                if bl[j].rstrip().endswith(';'):
+                    raise AnchorLost('%s::%s: statement at proof-hint anchor opens no block: %s' % (rel, name, [rx]))
+                j += 1
+            if j >= len(bl):
+                raise AnchorLost('%s::%s: statement at proof-hint anchor opens no block: %s' % (rel, name, [rx]))
+            pending_open.setdefault(j, []).extend(payload)
         for j, ln in enumerate(bl):
             for lno, pl in pending_end.get(j, []):
                 self.emit(pl, ('tpl', rel_tpl, lno))
@@ -676,6 +705,8 @@ class Unit:
             else:
                 self.lines.append(ln)
                 self.origin.append(('src', rel, body_line + mapping[j]))
+            for lno, pl in pending_open.get(j, []):
+                self.emit(pl, ('tpl', rel_tpl, lno))
             for ai, (rx, payload) in enumerate(afters):
                 if ai not in used_after and re.search(rx, ln):
                     used_after.add(ai)
